@@ -1640,6 +1640,18 @@ def gen_c14(r, tier="quick"):
             ops.append(["flood", r.choice([1100, 4200]) if big else r.choice([5, 20, 70]), f"f{j}"])
         if r.random() < 0.55:
             ops.append(["drop_model", live.pop(r.randrange(len(live)))])
+    if r.random() < 0.15:
+        # the last thing before M is observed: a same-named model whose compile request FAILS half-way
+        # (a needed variable is missing from the order; or the expression has no compiler case)
+        N2 = mutate_spec(r, M)
+        ops.append(["new_model", 90, N2])
+        cands = [e for e in sorted(N2["exprs"]) if len(S.mentioned(N2, N2["exprs"][e])) >= 2]
+        if cands:
+            e = r.choice(cands)
+            need = sorted(S.mentioned(N2, N2["exprs"][e]), key=S.natural_key)
+            r.shuffle(need)
+            ops.append(["compile", 90, "hx", r.choice(["expr", "grad", "cexpr"]), {"e": e, "es": [e], "order": need[:-1], "bad_order": True}])
+            ops.append(["call", 90, "hx", gen_point(r, N2)])
     # observe M: the long-lived copy and a fresh copy built after the prefix
     if early:
         hids0 = [o[2] for o in obsM if o[0] == "compile"] if ran_early else []
